@@ -114,11 +114,25 @@ func scenC05(k *K) {
 					}
 					if k.C.Chance(1, 2) {
 						st := c.Stores[0]
-						k.Do(0, "load -1 (late)", 400, func() (interface{}, error) {
+						// a late load, without a limit or (1 in 3) with a small one: what the
+						// limit cuts out of the log in memory stays on the disk
+						lim := -1
+						if k.C.Chance(1, 3) {
+							lim = k.C.Range(1, 3)
+						}
+						k.Do(0, fmt.Sprintf("load %d (late)", lim), 400, func() (interface{}, error) {
 							ctx, cancel := OpCtx(10 * time.Minute)
 							defer cancel()
-							return nil, st.Load(WithOfflineReads(ctx), -1)
+							return nil, st.Load(WithOfflineReads(ctx), lim)
 						})
+						if lim > 0 {
+							k.W.Stat("late-load-with-a-limit")
+							if wr := c.RandomWrite(0); wr != nil {
+								k.W.mu.Lock()
+								acks = append(acks, c05ack{hashes: []string{wr.Hash}, effAt: wr.EffAt, kind: "write"})
+								k.W.mu.Unlock()
+							}
+						}
 					}
 				} else {
 					if err := c.Up(0); err != nil {
